@@ -8,6 +8,9 @@ CONSTANTS
   Texts <- TTexts
   Valid <- TValid
   HashOf <- THash
+  ImplHash <- THash
+  AltHashes <- NoAlt
+  CanonOf <- NoCanon
   WrongHashes <- Wrong2
   Kinds <- BothKinds
   Caps <- Caps123
